@@ -1,8 +1,12 @@
 """Engine `proxy` (C20): generated client proxies and URI parsing are faithful.
 
-Specs: UriProxy (reference functions + oracle clauses), UriProxyTrace (batched validation of recorded
-(input, output) pairs), UriProxyCheck (bounded self-consistency of the reference functions: split/join
-inverse, format/parse round trips, name laws, the proxy-class cache as a small state machine).
+Specs: UriProxy (reference functions + oracle clauses), ProxyCalls (the call machine of the end-to-end mode:
+every call reaches the sink once, unchanged, and gets the answer to its own message), UriProxyTrace (batched
+validation of recorded (input, output) pairs and end-to-end histories), UriProxyCheck (bounded
+self-consistency of the reference functions: split/join inverse, format/parse round trips, name laws, the
+proxy-class cache as a small state machine), ProxyDispatch (code-shaped model of the dispatcher's call path,
+in particular of calls made before Open() completed, with ProxyCalls in lock-step; _shared.cfg = the
+"completion closures share the loop variable" design, kept as counterexample generator).
 
 Code under test (the real classes from /repo): scales.core.ClientProxyBuilder (CreateServiceClient /
 _BuildServiceProxy / _PROXY_TYPE_CACHE), scales.core.ScalesUriParser, scales.core.Scales builder
@@ -15,7 +19,19 @@ aliased methods; names with and without leading/trailing underscores incl. __dun
 trailing_, __lead, trail__; varied signatures), called through every exposed attribute with positional
 and keyword arguments over (level "stub") a recording stub dispatcher or (level "real") the real
 dispatcher over a recording sink; URIs tcp://h1:p1,...,hn:pn (1..n endpoints), zk://hosts/path[#name],
-other schemes.  Level: exploration (inputs are sampled; TLC validates every recorded pair against the
+other schemes.
+
+End-to-end mode (cases of kind "e2e"): one generated interface, the client built by the real
+ClientProxyBuilder / Scales builder over the REAL MessageDispatcher, below it a recording sink whose Open()
+result and answers the scenario controls.  Scenarios (seeded): calls made before the open completed, after,
+and a mix (also between the open result being set and its continuations running); several calls outstanding
+at once, each with an argument of its own; answers in a scenario-chosen order, some of them errors, some
+calls left unanswered; blocking forms from greenlets of their own, _async forms from the driver greenlet; the
+loop advanced between operations by a scenario-chosen number of quanta.  Events: Client, Call, SinkRecv, Reply,
+Ret, Result, End (see specs/UriProxy.tla, specs/ProxyCalls.tla).  No timeouts are used (the call timeout is
+3600 s and the clock moves by seconds at most).
+
+Level: exploration (inputs are sampled; TLC validates every recorded pair against the
 reference functions and checks the reference functions' own laws exhaustively in bounds).
 """
 import random
@@ -40,18 +56,46 @@ ASSUMPTIONS = [
   'IPv6 literals and endpoints without a port are outside "host:port" (the parser rejects them with ValueError); '
   'not asserted either way',
   'inputs are sampled (seeded), not enumerated',
+  'end-to-end mode: every call of a scenario carries an argument of its own (a zero-argument method is called at '
+  'most once per scenario), so the sink message of a call is identified by its content; the sink is directly below '
+  'the dispatcher (builder path: below the timeout sink); open always succeeds; no call times out (timeouts are '
+  'C01); calls of methods that need not be proxied (leading underscore) are judged only when they reach the sink',
 ]
-RULE = {'C20': 'each trace = 2-3 generated interfaces (every exposed attribute called with positional+keyword arguments, '
-               'value and error outcomes, stub or real dispatcher, cached and fresh proxy class) + 8-12 URIs; '
+RULE = {'C20': 'each trace = either 2-3 generated interfaces (every exposed attribute called with positional+keyword '
+               'arguments, value and error outcomes, stub or real dispatcher, cached and fresh proxy class) + 8-12 URIs, '
+               'or one end-to-end scenario (2-7 calls through a generated client over the real dispatcher over a '
+               'recording sink; calls before/after/around the completion of open, answers in scenario-chosen order); '
                'non-trivial = contains an interface with an inherited or underscore-decorated method, or a URI with '
-               'more than one endpoint; distinct by canonical event list'}
+               'more than one endpoint, or (end-to-end) at least two calls outstanding at once; distinct by canonical '
+               'event list'}
 CASE_TIMEOUT = 300
 
 
 def models(prop, tier):
-  return [dict(module='UriProxyCheck', cfg='UriProxyCheck.cfg', coverage=True, workers=4,
-               what='split/join inverse over 7-symbol alphabet up to length 5, tcp/zk format-parse round trips, '
-                    'name laws over 2^10 name sets, proxy-class cache machine')]
+  ms = [dict(module='UriProxyCheck', cfg='UriProxyCheck.cfg', coverage=True, workers=4,
+             what='split/join inverse over 7-symbol alphabet up to length 5, tcp/zk format-parse round trips, '
+                  'name laws over 2^10 name sets, proxy-class cache machine')]
+  # code-shaped model of the dispatcher's call path (calls made before / after the open completed), the call
+  # machine of ProxyCalls in lock-step
+  ms.append(dict(module='ProxyDispatch', cfg='ProxyDispatch_chain2.cfg', coverage=True, workers=4,
+                 may_be_unused=[],
+                 what='dispatcher call path as it is (ContinueWith(dispatch).Unwrap().rawlink(complete) per call), '
+                      '2 calls, both forms, value and error answers'))
+  if tier == 'quick':
+    ms.append(dict(module='ProxyDispatch', cfg='ProxyDispatch_chain3v.cfg', workers=6,
+                   what='as it is, 3 calls, both forms, one answer kind'))
+  else:
+    ms.append(dict(module='ProxyDispatch', cfg='ProxyDispatch_chain.cfg', workers=8,
+                   what='as it is, 3 calls, both forms, value and error answers'))
+    ms.append(dict(module='ProxyDispatch', cfg='ProxyDispatch_chain4v.cfg', workers=12, timeout=2400,
+                   what='as it is, 4 calls, both forms, one answer kind'))
+  ms.append(dict(module='ProxyDispatch', cfg='ProxyDispatch_drain3v.cfg' if tier == 'quick' else 'ProxyDispatch_drain.cfg',
+                 workers=4,
+                 what='alternative shape: early calls queued, one drain on open, a completion closure per call'))
+  ms.append(dict(module='ProxyDispatch', cfg='ProxyDispatch_shared.cfg', workers=2, expect_violation='NoViolation',
+                 what='counterexample generator: the drain shape with completion closures sharing the loop '
+                      'variable (every completion sets the result of the last queued call)'))
+  return ms
 
 
 # =================================================================== generation
@@ -167,9 +211,61 @@ def _gen_uri(rng):
   return rng.choice(_OTHER)
 
 
+# ------------------------------------------------------------------- end-to-end scenarios
+def _gen_e2e(rng, idx):
+  """One client over the real dispatcher over a recording sink: calls before / after / around the
+  completion of the client's open, several outstanding at once, answers in a scenario-chosen order."""
+  for _try in range(8):
+    spec = _gen_iface(rng, idx)
+    # enough methods that take arguments (each call carries a marker argument of its own)
+    rich = set(m['n'] for c in spec['classes'] for m in c['methods']
+               if m['sig'] != 0 and not m['n'].endswith('__') and m['n'].strip('_'))
+    if len(rich) >= 2:
+      break
+  mode = rng.choice(['early', 'early', 'early', 'mix', 'mix', 'after'])
+  ncalls = rng.randint(2, 7)
+  ops = [{'op': 'call', 'form': rng.choice(['sync', 'async']), 'pick': rng.randint(0, 10 ** 6),
+          'aseed': rng.randint(0, 2 ** 30)} for _ in range(ncalls)]
+  if mode == 'early':
+    at = ncalls
+  elif mode == 'mix':
+    at = rng.randint(1, ncalls - 1)
+  else:
+    at = -1                      # open completes before the client is handed out
+  if at >= 0:
+    ops.insert(at, {'op': 'open'})
+  # answers: from the open on, at random places (an answer with nothing outstanding is a no-op)
+  first = max(at, 0) + 1
+  for _ in range(rng.randint(0, ncalls)):
+    ops.insert(rng.randint(first, len(ops)), {'op': 'reply', 'pick': rng.randint(0, 10 ** 6),
+                                               'kind': 'value' if rng.random() < 0.6 else 'raise'})
+  # how far the loop runs between two operations
+  steps = []
+  for o in ops:
+    steps.append(o)
+    r = rng.random()
+    if r < 0.45:
+      steps.append({'op': 'settle'})
+    elif r < 0.70:
+      steps.append({'op': 'step', 'n': rng.choice([1, 1, 2, 3, 5])})
+  # drain: open (if still pending), then answer what is outstanding in a scenario-chosen order
+  drain = []
+  for _ in range(ncalls + 1):
+    drain.append({'op': 'reply', 'pick': rng.randint(0, 10 ** 6), 'kind': 'value' if rng.random() < 0.6 else 'raise'})
+    r = rng.random()
+    if r < 0.4:
+      drain.append({'op': 'settle'})
+    elif r < 0.6:
+      drain.append({'op': 'step', 'n': rng.choice([1, 2, 3])})
+  return {'kind': 'e2e', 'iface': spec, 'mode': mode, 'steps': steps, 'drain': drain,
+          'keep_unanswered': 1 if rng.random() < 0.15 else 0,
+          'via': rng.choice(['builder', 'builder', 'direct']),
+          'open_wait': rng.choice([0, 0, -1])}
+
+
 def cases(prop, tier, seed):
   global TRACE_CHUNK
-  TRACE_CHUNK = 40 if tier == 'quick' else 250
+  TRACE_CHUNK = 85 if tier == 'quick' else 250
   rng = random.Random(104729 * int(seed) + 20)
   n = 260 if tier == 'quick' else 5200
   out = []
@@ -180,6 +276,9 @@ def cases(prop, tier, seed):
       ifaces[1]['cname'] = ifaces[0]['cname']     # same class name, same module, different class object
     out.append({'ifaces': ifaces, 'uris': [_gen_uri(rng) for _ in range(rng.randint(8, 12))],
                 'via_builder': rng.random() < 0.5})
+  rng2 = random.Random(7919 * int(seed) + 2020)
+  for i in range(420 if tier == 'quick' else 9000):
+    out.append(_gen_e2e(rng2, i))
   return out
 
 
@@ -222,12 +321,18 @@ def _class_source(spec):
 class _Pool(object):
   """Argument / result objects; tokens are indices."""
 
-  def __init__(self):
+  def __init__(self, extra=()):
     class Obj(object):
       pass
+    self.Obj = Obj
     self.objs = [None, 0, 1, -7, 2 ** 40, 3.5, '', 'text', u'caf\u00e9', b'bytes', (1, 2), (), [1, [2]], {'k': 'v'},
                  {}, Obj(), Obj(), True, False, frozenset([1]), ValueError('boom'), KeyError('k'),
                  RuntimeError('x'), Exception(), Obj]
+    self.objs.extend(extra)
+
+  def add(self, o):
+    self.objs.append(o)
+    return len(self.objs) - 1
 
   def tok(self, o):
     for i, p in enumerate(self.objs):
@@ -568,10 +673,236 @@ def _run_uri(u, via_builder, ev):
   ev.append({'e': 'Uri', 'uri': cps(u), 'res': res})
 
 
+# ------------------------------------------------------------------- end-to-end driver
+def _run_e2e(loop, script, ev):
+  """The generated client on the REAL MessageDispatcher (Scales builder path, or ClientProxyBuilder +
+  MessageDispatcher directly) over a recording sink whose Open() result and answers the scenario controls."""
+  import gevent
+  from scales.asynchronous import AsyncResult
+  from scales.constants import ChannelState, SinkProperties
+  from scales.core import ClientProxyBuilder, Scales
+  from scales.dispatch import MessageDispatcher
+  from scales.message import MethodCallMessage, MethodReturnMessage
+  from scales.sink import ClientMessageSink, SinkProvider
+
+  spec = script['iface']
+  ns = {'ORIG': ORIG, '__name__': 'generated_iface_module'}
+  exec(compile(_class_source(spec), '<iface e2e>', 'exec'), ns)
+  I = ns[spec['cname']]
+  names = _function_names(I)
+
+  class UserError(Exception):
+    pass
+  pool = _Pool(extra=[TypeError('t'), ValueError('boom'), LookupError(), ZeroDivisionError('z'), OSError(2, 'x'),
+                      UserError('u'), UserError('u')])
+  st = {'seq': 0, 'opened': False, 'early': 0, 'calls': 0, 'aborted': False}
+  outstanding = []        # [seq, sink_stack] received, not answered
+  sinks = []
+  late = script['mode'] != 'after'
+
+  class RecordingSink(ClientMessageSink):
+    def __init__(self, next_provider, sink_properties, global_properties):
+      super(RecordingSink, self).__init__()
+      self.open_ar = AsyncResult()
+      if not late:
+        self.open_ar.set(True)       # open completes before the client is handed out
+      sinks.append(self)
+
+    def Open(self):
+      return self.open_ar
+
+    def Close(self):
+      pass
+
+    @property
+    def state(self):
+      return ChannelState.Open
+
+    def AsyncProcessRequest(self, sink_stack, msg, stream, headers):
+      if not isinstance(msg, MethodCallMessage):
+        return
+      st['seq'] += 1
+      m, a, k = getattr(msg, 'method', None), getattr(msg, 'args', None), getattr(msg, 'kwargs', None)
+      ev.append({'e': 'SinkRecv', 'seq': st['seq'], 'rec': {
+        'm': cps(m) if isinstance(m, str) else [-1],
+        'args': [pool.tok(x) for x in a] if isinstance(a, (tuple, list)) else [-1],
+        'kw': _kwlist(pool, k) if isinstance(k, dict) else [{'k': [], 'v': -1}]}})
+      outstanding.append([st['seq'], sink_stack])
+
+    def AsyncProcessResponse(self, sink_stack, context, stream, msg):
+      pass
+
+  provider = SinkProvider(RecordingSink)()
+  if script['via'] == 'builder':
+    b = Scales.NewBuilder(I).WithSink(provider).SetTimeout(3600)
+    b.SetOpenTimeout(0 if late or script['open_wait'] == 0 else None)
+    proxy = b.Build()
+  else:
+    dispatcher = MessageDispatcher(I, provider, 3600, {SinkProperties.Label: 'e2e', SinkProperties.ServiceInterface: I})
+    proxy = ClientProxyBuilder.CreateServiceClient(I)(dispatcher)
+    proxy.DispatcherOpen()
+  sink = sinks[0]
+  st['opened'] = not late
+  ev.append({'e': 'Client', 'i': 1, 'names': [cps(n) for n in names]})
+
+  # attributes the code proxies in both forms (a public method that is missing is the business of the
+  # Iface / Fwd events)
+  bases = [n for n in names if not n.startswith('__') and not n.endswith('__') and _sig_of(spec, n) >= 0
+           and hasattr(proxy, n) and hasattr(proxy, n + '_async')]
+  used_noarg = set()
+  free_vals = pool.values()
+  free_errs = pool.errors()
+  greenlets = []
+
+  def err_tok(ex):
+    t = pool.tok(ex)
+    if t < 0 and hasattr(ex, 'inner_exception'):
+      t = pool.tok(ex.inner_exception)
+    return t
+
+  def make_args(cid, base, rng):
+    """arguments compatible with the signature, one of them a marker unique to this call"""
+    sig = _sig_of(spec, base)
+    params = _SIGS[sig][1]
+    a_tok, kw_tok = _gen_args(rng, pool, sig)
+    marker = pool.add([pool.Obj(), 100000 + cid, 'call-%d' % cid][cid % 3])
+    slots = [('a', i) for i in range(len(a_tok))] + [('k', k) for k in sorted(kw_tok)]
+    if slots:
+      kind, where = rng.choice(slots)
+      if kind == 'a':
+        a_tok[where] = marker
+      else:
+        kw_tok[where] = marker
+    elif '*' in params:
+      a_tok.append(marker)
+    elif '**' in params:
+      kw_tok[rng.choice(_KWNAMES)] = marker
+    else:
+      if base in used_noarg:
+        return None
+      used_noarg.add(base)
+    return a_tok, kw_tok
+
+  def do_call(op):
+    if not bases:
+      return
+    rng = random.Random(op['aseed'])
+    cid = st['calls'] + 1
+    made = None
+    for probe in range(len(bases)):
+      base = bases[(op['pick'] + probe) % len(bases)]
+      made = make_args(cid, base, rng)
+      if made is not None:
+        break
+    if made is None:
+      return
+    st['calls'] = cid
+    a_tok, kw_tok = made
+    args = [pool.objs[t] for t in a_tok]
+    kwargs = dict((k, pool.objs[t]) for k, t in kw_tok.items())
+    attr = base if op['form'] == 'sync' else base + '_async'
+    call_ev = {'e': 'Call', 'i': 1, 'cid': cid, 'n': cps(attr), 'in': {'args': a_tok, 'kw': _kwlist(pool, kwargs)}}
+    if not st['opened']:
+      st['early'] += 1
+    if op['form'] == 'sync':
+      # the blocking form: from a greenlet of its own
+      def run():
+        ev.append(call_ev)
+        try:
+          v = getattr(proxy, attr)(*args, **kwargs)
+        except gevent.GreenletExit:
+          return
+        except BaseException as ex:  # noqa
+          ev.append({'e': 'Result', 'cid': cid, 'kind': 'raise', 'tok': err_tok(ex)})
+          return
+        ev.append({'e': 'Result', 'cid': cid, 'kind': 'value', 'tok': pool.tok(v)})
+      greenlets.append(gevent.spawn(run))
+      return
+    # the _async form: from the driver greenlet itself (it must not block)
+    ev.append(call_ev)
+    try:
+      val = getattr(proxy, attr)(*args, **kwargs)
+    except BaseException as ex:  # noqa
+      ev.append({'e': 'Ret', 'cid': cid, 'kind': 'raised'})
+      st['aborted'] = True         # (a blocking wait in the driver greenlet takes the hub down)
+      return
+    if not (hasattr(val, 'rawlink') and hasattr(val, 'ready') and hasattr(val, 'get')):
+      ev.append({'e': 'Ret', 'cid': cid, 'kind': 'plain'})
+      return
+    ev.append({'e': 'Ret', 'cid': cid, 'kind': 'completed' if val.ready() else 'pending'})
+
+    def yielded(ar):
+      if ar.successful():
+        ev.append({'e': 'Result', 'cid': cid, 'kind': 'value', 'tok': pool.tok(ar.value)})
+      else:
+        ev.append({'e': 'Result', 'cid': cid, 'kind': 'raise', 'tok': err_tok(ar.exception)})
+    val.rawlink(yielded)
+
+  def do_reply(op):
+    if not outstanding:
+      return
+    seq, stack = outstanding.pop(op['pick'] % len(outstanding))
+    kind = op['kind']
+    if kind == 'raise' and not free_errs:
+      kind = 'value'
+    src = free_errs if kind == 'raise' else free_vals
+    tok = src.pop(op['pick'] % len(src))
+    ev.append({'e': 'Reply', 'seq': seq, 'kind': kind, 'tok': tok})
+    if kind == 'value':
+      stack.AsyncProcessResponseMessage(MethodReturnMessage(return_value=pool.objs[tok]))
+    else:
+      stack.AsyncProcessResponseMessage(MethodReturnMessage(error=pool.objs[tok]))
+
+  def do(op):
+    k = op['op']
+    if k == 'call':
+      do_call(op)
+    elif k == 'open':
+      if not sink.open_ar.ready():
+        sink.open_ar.set(True)
+      st['opened'] = True
+    elif k == 'reply':
+      do_reply(op)
+    elif k == 'step':
+      loop.step(op['n'])
+    elif k == 'settle':
+      loop.settle()
+
+  for op in script['steps']:
+    do(op)
+    if st['aborted']:
+      break
+  if not st['aborted']:
+    do({'op': 'open'})
+    loop.settle()
+    for op in script['drain']:
+      if op['op'] == 'reply' and len(outstanding) <= script['keep_unanswered']:
+        continue
+      do(op)
+    # quiescent, also for an implementation that needs a moment (virtual time; far below the call timeout)
+    loop.run_for(1.0)
+    loop.settle()
+    ev.append({'e': 'End', 'opened': 1})
+    for g in greenlets:
+      if not g.dead:
+        g.kill(block=False)
+    loop.settle()
+    try:
+      proxy.DispatcherClose()
+    except Exception:
+      pass
+  return {'names': names, 'inherited': len(spec['classes']) > 1, 'early': st['early'], 'calls': st['calls']}
+
+
 def run_case(script):
   loop = common.boot()
   ev = []
   info = []
+  if script.get('kind') == 'e2e':
+    i = _run_e2e(loop, script, ev)
+    return {'cfg': {'kind': 'e2e'}, 'ev': ev,
+            'meta': {'inherited': i['inherited'], 'early': i['early'], 'calls': i['calls'],
+                     'errors': [list(e[1:3]) for e in loop.errors][:3]}}
   for iid, spec in enumerate(script['ifaces']):
     info.append(_run_iface(loop, spec, iid + 1, ev))
   for u in script['uris']:
@@ -585,6 +916,16 @@ def trace_for_tlc(t):
 
 
 def nontrivial(prop, t):
+  if t['cfg'].get('kind') == 'e2e':
+    # at least two calls outstanding at once (made, not yet answered)
+    out, best = 0, 0
+    for e in t['ev']:
+      if e['e'] == 'Call':
+        out += 1
+        best = max(best, out)
+      elif e['e'] == 'Reply':
+        out -= 1
+    return common.canon(t['ev']) if best >= 2 else None
   for e in t['ev']:
     if e['e'] == 'Uri' and (len(e['res']['eps']) > 1 or len(e['res']['hosts']) > 1):
       return common.canon(t['ev'])
@@ -615,6 +956,9 @@ def witness(prop, t, consumed, clause):
   if e.get('e') == 'Uri':
     w['uri'] = ''.join(chr(c) for c in e['uri'])
     w['res_kind'] = e['res']['kind']
+  if t['cfg'].get('kind') == 'e2e':
+    w['mode'] = 'e2e'
+    w['early_calls'] = t.get('meta', {}).get('early')
   return w
 
 
@@ -627,4 +971,16 @@ def extra_coverage(prop, tier, traces):
     for e in t['ev']:
       if e['e'] == 'Uri':
         kinds[e['res']['kind']] = kinds.get(e['res']['kind'], 0) + 1
-  return {'interfaces': ni, 'forwarded_calls': nf, 'uris': nu, 'uri_kinds': kinds}
+  e2e = [t for t in traces if t['cfg'].get('kind') == 'e2e']
+  return {'interfaces': ni, 'forwarded_calls': nf, 'uris': nu, 'uri_kinds': kinds,
+          'e2e_scenarios': len(e2e),
+          'e2e_calls': sum(t.get('meta', {}).get('calls', 0) for t in e2e),
+          'e2e_calls_before_open': sum(t.get('meta', {}).get('early', 0) for t in e2e),
+          'e2e_scenarios_with_2plus_early_calls': sum(1 for t in e2e if t.get('meta', {}).get('early', 0) >= 2),
+          'e2e_error_answers': sum(1 for t in e2e for e in t['ev'] if e['e'] == 'Reply' and e['kind'] == 'raise'),
+          'e2e_answers_out_of_call_order': sum(1 for t in e2e if _out_of_order(t['ev']))}
+
+
+def _out_of_order(ev):
+  seqs = [e['seq'] for e in ev if e['e'] == 'Reply']
+  return seqs != sorted(seqs)
